@@ -50,3 +50,13 @@ func ProfileTransport(avoid map[string]string) *Profile {
 		Features:        Features("int64", "nullable", "bytes", "timestamp", "empty", "enum_number", "oneof_disc", "unwrap_root_list", "unwrap_root_map"),
 		AnnotateAnyCard: true, Avoid: avoid}
 }
+
+// ProfileServerTransport is ProfileTransport for checks that drive the Go server with raw HTTP
+// (no generated client in the package).
+func ProfileServerTransport(avoid map[string]string) *Profile {
+	p := ProfileTransport(avoid)
+	p.Name = "server-transport"
+	p.NoClient = true
+	p.DefaultPaths = false
+	return p
+}
